@@ -123,7 +123,7 @@ CHECKS = {
              "judged on the decoded transaction bytes.",
         ref="3 C11", technique="Lean 4 proof (rank equalities after selection and sort) + model/implementation correspondence",
         note=TB + "coin selection is taken as given (C14/C09); reward ranks for mixed key/script withdrawals are counted, "
-                  "not asserted (no ledger available); recorded defects KF-C11-duplicate-input, KF-C11-zero-mint-policy."),
+                  "not asserted (no ledger available)."),
     "C12": dict(
         text="Lean theorems: the script-data-hash preimage is exactly (redeemer bytes as shipped) ++ (datum bytes as shipped) "
              "++ canonical language views, for map and list mode and after evaluated units replace the placeholders; absent "
@@ -190,7 +190,7 @@ CHECKS = {
              "against the model and an independent reference encoder.",
         ref="3 C18", technique="Lean 4 proof (model refines the Plutus-data spec encoder) + model/implementation correspondence",
         note=TB + "typed decoding (_restore_typed_primitive over generated dataclasses) is judged against the reference "
-                  "only; nine recorded defect classes are matched by narrow predicates (known_findings.json)."),
+                  "only; eight recorded defect classes are matched by narrow predicates (known_findings.json)."),
     "C19": dict(
         text="Lean theorems over a model of cip8.sign / cip8.verify parametric in the signature scheme: completeness for all "
              "4 key kinds x attach x network, the decision is exactly signature-valid AND credential-match over the signed "
